@@ -64,7 +64,9 @@ struct FUnifRoots
    */
     static FReal L(const unsigned int n, FReal x)
     {
-        assert(std::fabs(x)-1.<10.*std::numeric_limits<FReal>::epsilon());
+        // x comes from the global to local mapping of a particle: for a box far from the origin it is off by
+        // eps*|position|/width, much more than a few ulps of 1 (it is clamped below): only reject gross errors
+        assert(std::fabs(x)-1.<FReal(1e-2));
         if (std::fabs(x)>1.) {
             //std::cout << "x=" << x << " out of bounds!" << std::endl;
             x = (x > FReal( 1.) ? FReal( 1.) : x);
@@ -110,7 +112,9 @@ struct FUnifRoots
    */
     static FReal dL(const unsigned int n, FReal x)
     {
-        assert(std::fabs(x)-1.<10.*std::numeric_limits<FReal>::epsilon());
+        // x comes from the global to local mapping of a particle: for a box far from the origin it is off by
+        // eps*|position|/width, much more than a few ulps of 1 (it is clamped below): only reject gross errors
+        assert(std::fabs(x)-1.<FReal(1e-2));
         if (std::fabs(x)>1.) {
             x = (x > FReal( 1.) ? FReal( 1.) : x);
             x = (x < FReal(-1.) ? FReal(-1.) : x);
